@@ -362,3 +362,21 @@ func fillPlain(rt *rapid.T, v reflect.Value) {
 		v.Set(drawLeaf(rt, v.Type()))
 	}
 }
+
+// ---- exported helpers for the run-time shape tier (harness/optdyn)
+
+// FillValue sets every leaf below v to a drawn value (pointees of struct pointers are allocated, not observed).
+func FillValue(rt *rapid.T, v reflect.Value) { Fill[struct{}](rt, v, nil, 0) }
+
+// DrawOf draws one value of a type known only at run time.
+func DrawOf(rt *rapid.T, t reflect.Type) reflect.Value {
+	v := reflect.New(t).Elem()
+	Fill[struct{}](rt, v, nil, 0)
+	return v
+}
+
+// ValueMask marks the value-carrying (non-padding) bytes of a type.
+func ValueMask(t reflect.Type) []bool { return valueMask(t) }
+
+// BytesAt views n bytes of memory.
+func BytesAt(p unsafe.Pointer, n uintptr) []byte { return bytesAt(p, n) }
